@@ -41,16 +41,29 @@ func covered(ranges []any, p int) bool {
 	return false
 }
 
+// the object parsed by the previous libDigest call and its digest: hashed again after the next Parse, it must still
+// report the same digest (a parsed image does not depend on images parsed later)
+var prevParsed *authenticode.PECOFFBinary
+var prevDigest []byte
+
 func libDigest(b []byte) ([]byte, string) {
 	var d []byte
+	stale := false
 	o, err := guard(func() error {
 		p, err := authenticode.Parse(bytes.NewReader(b))
 		if err != nil {
 			return err
 		}
 		d = p.Hash(crypto.SHA256)
+		if prevParsed != nil && !bytes.Equal(prevParsed.Hash(crypto.SHA256), prevDigest) {
+			stale = true
+		}
+		prevParsed, prevDigest = p, d
 		return nil
 	})
+	if stale {
+		return nil, "the digest of the previously parsed image changed after this image was parsed"
+	}
 	if o.Kind == "panic" {
 		return nil, "panic: " + o.Panic
 	}
